@@ -115,6 +115,16 @@ def run_sequences(job):
             return k.public() if keyform == 'object' else (k.public_hex if keyform == 'hex' else k.public_byte)
         values = [rng.choice([100000, 2 ** 32 + 77]) for _ in cfg]
         outkey = Key(rng.randrange(1, ref.N), network=network)
+        # what is known about the spent output may be handed over too: its locking script (single-key inputs)
+        with_ls = [rng.random() < 0.4 for _ in cfg]
+
+        def spent_script(k, wt):
+            kh = ref.hash160(k.public_byte)
+            if wt == 'legacy':
+                return b'\x76\xa9\x14' + kh + b'\x88\xac'
+            if wt == 'segwit':
+                return b'\x00\x14' + kh
+            return b'\xa9\x14' + ref.hash160(b'\x00\x14' + kh) + b'\x87'
 
         def build():
             t = Transaction(network=network, witness_type='segwit' if any(w != 'legacy' for _, w in cfg) else 'legacy')
@@ -122,8 +132,9 @@ def run_sequences(job):
                 n, m = SHAPE[shape]
                 ks = privs[j]
                 if n == 1:
+                    kw = {'locking_script': spent_script(ks[0], wt)} if with_ls[j] else {}
                     t.add_input(prev_txid=bytes([j + 1]) * 32, output_n=j, keys=kf(ks[0]), script_type='sig_pubkey', value=values[j],
-                                witness_type=wt, sequence=0xfffffffd)
+                                witness_type=wt, sequence=0xfffffffd, **kw)
                 else:
                     t.add_input(prev_txid=bytes([j + 1]) * 32, output_n=j, keys=[kf(k) for k in ks], script_type='p2sh_multisig',
                                 sigs_required=m, value=values[j], witness_type=wt, sequence=0xfffffffd)
